@@ -148,6 +148,8 @@ def units(tier):
                                 'std::is_trivially_copyable_v<tainted<%s, vsbx>> && std::is_trivially_destructible_v<tainted<%s, vsbx>> && '
                                 'sizeof(tainted_opaque<%s, vsbx>) == sizeof(tainted<%s, vsbx>) && alignof(tainted_opaque<%s, vsbx>) == alignof(tainted<%s, vsbx>))' % ((t,) * 8), 1,
                                 'opaque_and_tainted_are_passed_the_same_way', tier))
+    from . import C02
+    insts.append(C02.cast_shape_inst(tier, PROP, 'c20'))
     return [Unit('C20_opaque_casts', insts), Unit('C20_struct_opaque', struct_opaque_insts(tier), includes=('rlbox.hpp', 'vsbx.hpp', 'vstructs.hpp'))]
 
 
